@@ -639,9 +639,10 @@ class Result(JsonSerializable):
                                                                        total)
         self.num_updates += 1
 
-    def merge(self, other: "Result") -> None:
+    def _assert_can_merge(self, other: "Result") -> None:
         """
-        Merge the result from other with self.
+        Check if `other` can be merged with self (raises an AssertionError
+        if it can not). Nothing is changed.
 
         Parameters
         ----------
@@ -662,6 +663,27 @@ class Result(JsonSerializable):
                    "accumulate values.")
             assert other.accumulate_values_bool is True, msg
 
+        if self._update_type_code == Result.CHOICETYPE:
+            # Without this check numpy would either broadcast a single
+            # choice to all choices or fail after self was already changed
+            assert len(self._value) == len(other._value), (
+                "Can only merge two CHOICETYPE results with the same "
+                "number of choices")
+
+    def merge(self, other: "Result") -> None:
+        """
+        Merge the result from other with self.
+
+        Parameters
+        ----------
+        other : Result
+            Another Result object.
+        """
+        # All checks are done before anything is changed
+        self._assert_can_merge(other)
+
+        if self.accumulate_values_bool is True:
+            # pylint: disable=W0212
             self._value_list.extend(other._value_list)
             self._total_list.extend(other._total_list)
 
